@@ -9,12 +9,15 @@ cd "$WT" || exit 2
 CREATED=""
 [ -d "$DEST" ] || CREATED=1
 mkdir -p "$DEST"; cp "$DEMO" "$DEST/" || exit 2
+# optional extra setup inside the worktree (e.g. a dev-dependency the demonstration needs)
+if [ -n "$PRECMD" ]; then sh -c "$PRECMD" || { echo "PRECMD failed"; exit 2; }; fi
 if [ "$CERTS" = "default" ]; then cargo run --offline -q -p selium-tools -- gen-certs >/dev/null 2>&1;
 elif [ -n "$CERTS" ]; then cargo run --offline -q -p selium-tools -- gen-certs -s target/seed-certs/server/ -c target/seed-certs/client/ --no-expiry >/dev/null 2>&1; fi
-cargo test -p "$PKG" --offline $EXTRA --test "$TEST" > /tmp/confirm.$$.head 2>&1; H=$?
+RUSTFLAGS="$DEMO_RUSTFLAGS" cargo test -p "$PKG" --offline $EXTRA --test "$TEST" > /tmp/confirm.$$.head 2>&1; H=$?
 git apply "$PATCH" || { echo "patch does not apply"; exit 2; }
-cargo test -p "$PKG" --offline $EXTRA --test "$TEST" > /tmp/confirm.$$.mut 2>&1; M=$?
+RUSTFLAGS="$DEMO_RUSTFLAGS" cargo test -p "$PKG" --offline $EXTRA --test "$TEST" > /tmp/confirm.$$.mut 2>&1; M=$?
 rm -f "$DEST/$(basename "$DEMO")"; [ -n "$CREATED" ] && rmdir "$DEST" 2>/dev/null
+git checkout -q -- Cargo.lock '*/Cargo.toml' 2>/dev/null
 cargo test --workspace --offline --no-fail-fast > /tmp/confirm.$$.suite 2>&1
 PASSED=$(grep -E '^test .* \.\.\. ok$' /tmp/confirm.$$.suite | wc -l)
 FAILED=$(grep -E '^test .* \.\.\. FAILED$' /tmp/confirm.$$.suite | grep -v -E 'pub_sub::test_pub_sub|request_reply::' | wc -l)
